@@ -51,8 +51,9 @@ func (s *Session) log(e Event) {
 
 // Closer is the tracked closable value returned by CLOSER(id).
 type Closer struct {
-	ID int64
-	S  *Session
+	ID     int64
+	S      *Session
+	closed bool
 }
 
 var closerType = core.NewType("closer")
@@ -78,8 +79,17 @@ func (c *Closer) Compare(o core.Value) int64 {
 	}
 	return 1
 }
+// Close reports an error for every third id (and for any repeated close): a failing
+// Close must not keep the remaining closables from being closed
 func (c *Closer) Close() error {
 	c.S.log(Event{Kind: "close", ID: c.ID})
+	c.S.mu.Lock()
+	again := c.closed
+	c.closed = true
+	c.S.mu.Unlock()
+	if again || c.ID%3 == 0 {
+		return fmt.Errorf("harness: close of %d failed", c.ID)
+	}
 	return nil
 }
 
